@@ -180,6 +180,28 @@ Section Tables.
 
   Definition pow10 (n : nat) : positive := Pos.pow 10 (Pos.of_nat n).
 
+  (* the optional exponent  (?:[eE][+-]?\d+)?  - how Python prints very small and very large floats *)
+  Fixpoint take_digits (s : string) (acc : Z) (n : nat) : (Z * nat * string) :=
+    match s with
+    | String c s' => if is_digit c then take_digits s' (10 * acc + Z.of_nat (nat_of_ascii c - 48)) (S n) else (acc, n, s)
+    | EmptyString => (acc, n, s)
+    end.
+  Definition take_exp (rest : string) : option (Z * string) :=
+    match rest with
+    | String e r1 =>
+        if (Ascii.eqb e "e" || Ascii.eqb e "E")%char then
+          let '(neg, r2) := match r1 with
+                            | String sg r' => if Ascii.eqb sg "-"%char then (true, r') else if Ascii.eqb sg "+"%char then (false, r') else (false, r1)
+                            | EmptyString => (false, r1)
+                            end in
+          let '(ex, nd, r3) := take_digits r2 0 0%nat in
+          if Nat.eqb nd 0 then None else Some ((if neg then (- ex)%Z else ex), r3)
+        else None
+    | EmptyString => None
+    end.
+  Definition scale10 (v : Q) (ex : Z) : Q :=
+    if (0 <=? ex)%Z then Qred (Qmult v (inject_Z (10 ^ ex))) else Qred (Qdiv v (inject_Z (10 ^ (- ex)))).
+
   (* Score.parse on  f"{inversion}{partial}" : everything after the leading "!"s *)
   Definition parse_body (r1 : string) : option (res (option ascii * Q * bool)) :=
     let '(op, r2) := match r1 with
@@ -191,8 +213,9 @@ Section Tables.
           let '(ndots, ip, fp, fd, nd, rest) := take_num r2 0%nat 0 0 0%nat 0%nat in
           if (Nat.ltb 1 ndots || Nat.eqb nd 0)%bool then Some (Err "ValueError")   (* float("1.2.3"), float(".") *)
           else
-            let v := (if Nat.eqb fd 0 then inject_Z ip
-                      else Qred (Qplus (inject_Z ip) (Qmake fp (pow10 fd)))) in
+            let v0 := (if Nat.eqb fd 0 then inject_Z ip
+                       else Qred (Qplus (inject_Z ip) (Qmake fp (pow10 fd)))) in
+            let '(v, rest) := match take_exp rest with Some (ex, rest') => (scale10 v0 ex, rest') | None => (v0, rest) end in
             let pct := match rest with String p _ => Ascii.eqb p "%"%char | _ => false end in
             Some (Ok (op, (if pct then Qred (Qdiv v (inject_Z 100)) else v), pct))
         else None
